@@ -327,6 +327,7 @@ var pushLog = istiolog.RegisterScope("push", "logs details about why Istio is tr
 
 // ConfigUpdate implements ConfigUpdater interface, used to request pushes.
 func (s *DiscoveryServer) ConfigUpdate(req *model.PushRequest) {
+	verifGateReq("configupdate", req)
 	if features.EnableUnsafeAssertions {
 		if model.HasConfigsOfKind(req.ConfigsUpdated, kind.Service) {
 			panic("assertion failed kind.Service can not be set in ConfigKey")
